@@ -1469,6 +1469,19 @@ def fam_dbg(tier, seed):
             field("flag", [(0, 0)], T_bool()), field("level", [(1, 4)], T_uint(4)), field("mode", [(5, 6)], T_enum("DE", 2, True), access="r"),
             field("opt", [(7, 9)], T_enum("DO", 3, False)), field("inner", [(12, 15)], T_nested("DInner", 4)), field("raw", [(16, 31)], T_int(16)),
         ], default=dflt, debug=True, family="DBG"))
+    # fields named like the identifiers a hand-written `fmt` would use for its parameter and locals, and a field
+    # named like a constant in scope (a `let <field> = self.<field>();` in the generated impl would shadow the
+    # formatter, or turn into a constant pattern) -- seeded C19_r13
+    out.append({"kind": "raw", "mod": mod, "name": "kmax", "path": "%s::kmax" % mod, "defines": ["kmax"],
+                "lines": ["/// a constant named like a field of DbgLocals", "#[allow(non_upper_case_globals)]", "pub const kmax: u8 = 3;",
+                          "/// a unit struct named like a field of DbgLocals", "#[allow(non_camel_case_types)]", "pub struct ds;"]})
+    for nmx, dflt in (("DbgLocals", None), ("DbgLocalsD", {"form": "=", "value": 0x12345678})):
+        out.append(struct(mod, nmx, 32, [
+            field("f", [(0, 3)], T_uint(4)), field("fmt", [(4, 4)], T_bool()), field("formatter", [(5, 7)], T_uint(3), access="r"),
+            field("s", [(8, 15)], T_int(8)), field("d", [(12, 12)], T_bool()), field("ds", [(13, 15)], T_uint(3)),
+            field("kmax", [(16, 19)], T_uint(4)), field("result", [(20, 23)], T_uint(4)), field("this", [(24, 27)], T_uint(4)),
+            field("value", [(28, 31)], T_uint(4)),
+        ], default=dflt, debug=True, family="DBG"))
     # every base width class, full-width and top-bit fields, wide signed fields
     for w in (8, 16, 32, 64, 128, 12, 48, 100):
         fs = [field("whole", [(0, w - 1)], T_uint(w)), field("top", [(w - 1, w - 1)], T_bool(), access="r"),
